@@ -997,7 +997,7 @@ def scenario_reuse(ctx):
         J.fail('spec', f"reuse-catalogue: the same catalogue list refitted twice on the same image (stage 1) gives different catalogues: {d}; "
                f"e.g. row ({x.island},{x.source}): a {x.a!r} -> {y.a!r}, b {x.b!r} -> {y.b!r}, peak_flux {x.peak_flux!r} -> {y.peak_flux!r}",
                dict(site='reproducible', what='history-dependence', clause='same-catalogue-object-twice',
-                    cause='input-catalogue-resized-in-place' if F(x.a) != F(y.a) else 'other'))
+                    cause='input-catalogue-modified-in-place' if F(x.a) != F(y.a) else 'other'))
     ctx.count('reuse-catalogue-runs')
     ctx.case(case, nontrivial_key=('reuse-catalogue', ctx.seed))
 
@@ -1120,11 +1120,11 @@ def scenario_prior(ctx, tag, spec, path, inp, opts, rerun=True, child=False, rou
     if getattr(sf, '_verif_mutated', None):
         import re
         mcols = re.search(r'columns \[([0-9, ]*)\]', sf._verif_mutated)
-        only_ab = bool(mcols) and set(int(v) for v in mcols.group(1).split(',')) <= {16, 18}
+        only_ab = bool(mcols) and set(int(v) for v in mcols.group(1).split(',')) <= {1, 2, 16, 18}
         J.fail('spec', f"{label}: priorized_fit_islands modified the caller's input catalogue: {sf._verif_mutated}"
-               + (" (a and b: the sources are resized in place)" if only_ab else ""),
+               + (" (a, b / island, source: the caller's objects are resized and regrouped in place)" if only_ab else ""),
                dict(site='priorized_fit_islands', what='argument-mutated',
-                    cause='input-catalogue-resized-in-place' if only_ab else 'other'))
+                    cause='input-catalogue-modified-in-place' if only_ab else 'other'))
     if rerun:
         rerun_and_diff(ctx, J, label, 'prior', path, opts, out, catalogue=inp)
     if child:
